@@ -46,6 +46,8 @@ def main():
     n = 1200 if thorough else 120
     for fam in ("tank", "qtank", "arc", "kind"):
         K.correspondence(rep, fam, n, 12, tag="c07", maxdigits=30 if fam == "kind" else None)
+    import corr_net  # noqa: F401
+    K.correspondence(rep, "net", 2000 if thorough else 200, 8, tag="c07", maxdigits=30)
     seen = mon_probe.run(rep, thorough)
     C.apply_known(rep, PID, {k: (v, "model", {"ops": [], "cls": "model"}, -1) for k, v in seen.items()})
     return rep.finish(RULE, ["no other operation between the check and the request", "offers are wet; requests are non-negative"])
